@@ -633,9 +633,6 @@ func (tr *gtTr) commaOk(vName, okName string, rhs ast.Expr, declare bool, env *v
 		if r.Type == nil {
 			gtFail("x.(type) outside a type switch")
 		}
-		if vName != "_" {
-			gtFail("v, ok := x.(T) with the asserted value bound is outside the subset (only `_, ok :=`)")
-		}
 		a := tr.expr(r.X, env)
 		if a.typ.kind != kValue {
 			gtFail("type assertion on a %s", a.typ.name)
@@ -643,6 +640,20 @@ func (tr *gtTr) commaOk(vName, okName string, rhs ast.Expr, declare bool, env *v
 		t := tr.g.resolveTypeSoft(tr.p, tr.f, r.Type, 0)
 		if t.valueKind < 0 {
 			gtFail("type assertion to %s, which is not a concrete data type", t.name)
+		}
+		if vName != "_" {
+			// v, ok := x.(data.T): the payload (the zero value when x holds another type) and whether it is a T
+			switch t.kind {
+			case kBool, kInt, kString:
+			default:
+				gtFail("v, ok := x.(%s): only the scalar data types have a zero value in the subset", t.name)
+			}
+			name := "val_as_" + strings.ToLower(valueKinds[t.valueKind])
+			tr.fn.usesV = true
+			tr.fn.valueParams[name] = true
+			pv := ex{binds: a.binds, code: "(match " + name + " " + a.code + " with Some p => p | None => " + zeroOf(t) + " end)", typ: t}
+			okv := ex{code: "(match " + name + " " + a.code + " with Some _ => true | None => false end)", typ: tBool}
+			return tr.bindNew(env, vName, pv, declV, func(e *venv) gnode { return tr.bindNew(e, okName, okv, declOk, next) })
 		}
 		return tr.bindNew(env, okName, ex{binds: a.binds, code: "(Z.eqb " + tr.kindOf(a.code) + " " + zLitInt(int64(t.valueKind)) + ")", typ: tBool}, declOk, next)
 	}
@@ -1008,7 +1019,7 @@ func (fn *gtFn) addAbstract(a gtAbstract) {
 var valueParamOrder = []struct{ name, typ string }{{"val_kind", "V -> Z"}, {"val_undefined", "V"}, {"val_null", "V"},
 	{"val_of_bool", "bool -> V"}, {"val_of_int", "Z -> V"}, {"val_of_string", "bstr -> V"},
 	{"val_as_bool", "V -> option bool"}, {"val_as_int", "V -> option Z"}, {"val_as_string", "V -> option bstr"},
-	{"val_as_list", "V -> option (list V)"}, {"val_as_map", "V -> option (list (bstr * V))"}}
+	{"val_as_list", "V -> option (list V)"}, {"val_as_map", "V -> option (list (bstr * V))"}, {"val_string", "V -> option bstr"}}
 var predOrder = []string{"uni_letter", "uni_digit", "uni_space"}
 
 func (fn *gtFn) implicitBinders() []string {
